@@ -1165,6 +1165,9 @@ class VCGen:
             q = s.resolve_function(nm)
             if q is not None:
                 return s.call_contract(q, None, None, e, st)
+            fn_, recv_ = s.find_helper(e, st) if not s.specmode else (None, None)
+            if fn_ is not None:
+                return s.inline_expr(fn_, recv_, e, st)
             raise Unsupported(f'call to {nm} at line {e.lineno}')
         if isinstance(f, ast.Attribute):
             # module-level externals: math.floor, random.random, ...
@@ -1179,6 +1182,9 @@ class VCGen:
             if ot.k == 'ref':
                 q = s.resolve_method(ot, f.attr)
                 if q is None:
+                    fn_, recv_ = s.find_helper(e, st) if not s.specmode else (None, None)
+                    if fn_ is not None:
+                        return s.inline_expr(fn_, recv_, e, st)
                     raise Unsupported(f'no contract for method {f.attr} on {ot}')
                 return s.call_contract(q, o, ot, e, st)
             if m is not None:
@@ -1403,6 +1409,29 @@ class VCGen:
             st.pc.append(ForAll([m], Implies(And(0 <= m, m < L_len(lv, lt)), L_arr(new, lt)[m] == L_arr(lv, lt)[m]), patterns=[L_arr(lv, lt)[m]]))
             return new
         s.mutate_list(e.func.value, st, fn, e.lineno)
+        return BoolVal(False), NONE
+
+    def meth_extend(s, e, o, ot, st):
+        b, tb = s.ev(e.args[0], st)
+        b, tb = s.deref(b, tb, st)
+
+        def fn(lv, lt):
+            return s.list_concat(lv, lt, b, tb, st)[0]
+        s.mutate_list(e.func.value, st, fn, e.lineno)
+        return BoolVal(False), NONE
+
+    def meth_writelines(s, e, o, ot, st):
+        if ot != FILE:
+            raise Unsupported('writelines on a non-file')
+        x, tx = s.ev(e.args[0], st)
+        n_ = simplify(L_len(x, tx)) if tx == LIST(STR) else None
+        if n_ is None or not is_int_value(n_):
+            raise Unsupported('writelines of a list of unknown length')
+        w, tw = st.env['__written']
+        for i in range(n_.as_long()):
+            w = L_app(w, tw, simplify(L_arr(x, tx)[i]))
+            st.env['__content'] = (Concat(st.env['__content'][0], simplify(L_arr(x, tx)[i])), STR)
+        st.env['__written'] = (w, tw)
         return BoolVal(False), NONE
 
     def meth_copy(s, e, o, ot, st):
@@ -1883,6 +1912,9 @@ class VCGen:
             v, t = BoolVal(False), NONE
         else:
             v, t = s.ev(n.value, st)
+        if s.cur.get('_inline'):
+            s.cur['_inline'][-1]['returns'].append((st, v, t))
+            return []
         s.exit_normal(st, v, t, n.lineno)
         return []
 
@@ -2035,6 +2067,7 @@ class VCGen:
         st.env['__path'] = (path, STR)
         st.env['__mode'] = (mode, STR)
         st.env['__written'] = (empty(LIST(STR)), LIST(STR))
+        st.env['__content'] = (StringVal(""), STR)        # what the file holds: the concatenation of everything written
         st.env[it.optional_vars.id] = (IntVal(1), FILE)
         if '__b_' + it.optional_vars.id in st.env:
             st.env['__b_' + it.optional_vars.id] = (BoolVal(True), BOOL)
@@ -2048,6 +2081,7 @@ class VCGen:
             raise Unsupported('write of a non-string')
         w, tw = st.env['__written']
         st.env['__written'] = (L_app(w, tw, x), tw)
+        st.env['__content'] = (Concat(st.env['__content'][0], x), STR)
         return BoolVal(False), NONE
 
     def meth_read(s, e, o, ot, st):
@@ -2076,8 +2110,9 @@ class VCGen:
         for x in ast.walk(ast.Module(body=list(body), type_ignores=[])):
             if isinstance(x, ast.Name) and isinstance(x.ctx, ast.Store):
                 out.add(x.id)
-            if isinstance(x, ast.Call) and isinstance(x.func, ast.Attribute) and x.func.attr == 'write':
+            if isinstance(x, ast.Call) and isinstance(x.func, ast.Attribute) and x.func.attr in ('write', 'writelines'):
                 out.add('__written')
+                out.add('__content')
             if isinstance(x, ast.Call) and isinstance(x.func, ast.Attribute) and x.func.attr in ('append', 'pop', 'sort', 'remove', 'extend', 'insert', 'clear', 'reverse'):
                 b = x.func.value
                 while isinstance(b, (ast.Subscript, ast.Attribute)):
@@ -2319,6 +2354,110 @@ class VCGen:
         iv = '_i' if ordn == 0 else f'_i{ordn}'
         return s.loop_common(n, st, ordn, sp, iv, None)
 
+    def inline_expr(s, fn, recv, e, st):
+        """a helper called inside an expression: its paths are merged into one value with ite (no raising paths allowed)"""
+        base = st.clone()
+        n_ob = len(s.obligs)
+        outs = s.inline_helper(fn, recv, e, base, e.lineno)
+        if not outs:
+            raise Unsupported(f'inlined helper {fn.name} has no normal return')
+        n0 = len(st.pc)
+        val, ty = None, None
+        conds = []
+        for t_, v_, ty_ in reversed(outs):
+            if any(t_.heap[f] is not st.heap[f] for f in st.heap) or any(t_.lheap[k] is not st.lheap[k] for k in st.lheap):
+                raise Unsupported(f'inlined helper {fn.name} has side effects inside an expression')
+            cond = And(*t_.pc[n0:]) if len(t_.pc) > n0 else BoolVal(True)
+            conds.append(cond)
+            if val is None:
+                val, ty = v_, ty_
+            else:
+                if ty_ != ty:
+                    v_, val, ty = s.num2(v_, ty_, val, ty)
+                val = If(cond, v_, val)
+        st.pc.append(Or(*conds))        # execution continues only on a path on which the helper returned (its raising paths ended there)
+        return val, ty
+
+    # ---------------------------------------------------------------- inlining of uncontracted, loop-free helpers
+    def find_helper(s, c, st):
+        """a call to a function (or a method of the receiver's class or of its bases) of the same module that has no contract and
+        whose body has no loop: returns (FunctionDef, receiver or None) -- such helpers are executed in place"""
+        mod = s.modules[s.cur['name'].split('.')[0]]
+        f = c.func
+        fn, recv = None, None
+        if isinstance(f, ast.Name):
+            fn = mod.find(f.id)
+            if not isinstance(fn, ast.FunctionDef):
+                fn = None
+        elif isinstance(f, ast.Attribute):
+            try:
+                o, ot = s.ev(f.value, st)
+            except Unsupported:
+                return None, None
+            if ot.k != 'ref':
+                # Cls.helper(...) written on the class (static method)
+                if isinstance(f.value, ast.Name):
+                    fn = mod.find(f'{f.value.id}.{f.attr}')
+                if fn is None:
+                    return None, None
+            else:
+                classes = [ot.a[0]] + [k for k in s.class_tags] + ['Node']
+                for cls in classes:
+                    cand = mod.find(f'{cls}.{f.attr}')
+                    if isinstance(cand, ast.FunctionDef):
+                        fn = cand
+                        break
+                is_static = fn is not None and any(isinstance(d, ast.Name) and d.id == 'staticmethod' for d in fn.decorator_list)
+                recv = None if is_static else (o, ot)
+        if fn is None:
+            return None, None
+        if any(isinstance(x, (ast.For, ast.While, ast.Try, ast.With, ast.Lambda, ast.Yield)) for x in ast.walk(fn)):
+            return None, None
+        if any(isinstance(x, ast.Call) and isinstance(x.func, ast.Name) and x.func.id == fn.name for x in ast.walk(fn)):
+            return None, None
+        return fn, recv
+
+    def inline_helper(s, fn, recv, c, st, line):
+        """-> list of (state, value, type) for the normal returns; raises inside the helper follow the caller's rules"""
+        if len(s.cur.setdefault('_inline', [])) > 3:
+            raise Unsupported('helper inlining too deep')
+        params = [a.arg for a in fn.args.args]
+        saved_env = dict(st.env)
+        env2 = {k: v for k, v in st.env.items() if k.startswith('__')}
+        args = list(c.args)
+        if recv is not None:
+            env2[params[0]] = recv
+            params = params[1:]
+        defaults = dict(zip([a.arg for a in fn.args.args][::-1], fn.args.defaults[::-1]))
+        kw = {k.arg: k.value for k in c.keywords if k.arg}
+        for pn in params:
+            if args:
+                env2[pn] = s.ev(args.pop(0), st)
+            elif pn in kw:
+                env2[pn] = s.ev(kw[pn], st)
+            elif pn in defaults:
+                env2[pn] = s.ev(defaults[pn], st)
+            else:
+                raise Unsupported(f'missing argument {pn} for inlined helper {fn.name}')
+        frame = dict(returns=[])
+        s.cur['_inline'].append(frame)
+        st.env = env2
+        saved_locals = s.cur['locals']
+        s.cur['locals'] = dict(saved_locals)
+        try:
+            for t in s.block(fn.body, st):
+                frame['returns'].append((t, BoolVal(False), NONE))
+        finally:
+            s.cur['_inline'].pop()
+            s.cur['locals'] = saved_locals
+        outs = []
+        for t, v, ty in frame['returns']:
+            keep = {k: x for k, x in t.env.items() if k.startswith('__') and k not in saved_env}
+            t.env = dict(saved_env)
+            t.env.update(keep)
+            outs.append((t, v, ty))
+        return outs
+
     # ---------------------------------------------------------------- calls at statement level (may raise, may bind)
     def call_stmt(s, c, target, st, line):
         f = c.func
@@ -2345,13 +2484,30 @@ class VCGen:
                 q = s.resolve_method(ot, f.attr)
                 recv = (o, ot)
                 if q is None:
-                    raise Unsupported(f'no contract for method {f.attr} on {ot}')
+                    fn_, recv_ = s.find_helper(c, st)
+                    if fn_ is None:
+                        raise Unsupported(f'no contract for method {f.attr} on {ot}')
+                    res = []
+                    for t_, v_, ty_ in s.inline_helper(fn_, recv_, c, st, line):
+                        if target is not None:
+                            s.assign(target, v_, ty_, t_, line)
+                        res.append(t_)
+                    return res
             elif try_builtin is not None:
                 v, t = try_builtin(c, o, ot, st)
                 if target is not None:
                     s.assign(target, v, t, st, line)
                 return [st]
         if q is None:
+            is_builtin_like = isinstance(f, ast.Name) and (getattr(s, 'bi_' + f.id, None) is not None or f.id in SPEC or f.id in s.cur.get('externals', {}))
+            fn_, recv_ = (None, None) if is_builtin_like or not isinstance(f, (ast.Name, ast.Attribute)) else s.find_helper(c, st)
+            if fn_ is not None and not (isinstance(f, ast.Attribute) and isinstance(f.value, ast.Name) and f.value.id in ('math', 'random', 'time', 'copy', 'logging')):
+                res = []
+                for t_, v_, ty_ in s.inline_helper(fn_, recv_, c, st, line):      # each path of the helper continues as its own path
+                    if target is not None:
+                        s.assign(target, v_, ty_, t_, line)
+                    res.append(t_)
+                return res
             v, t = s.ev(c, st)
             if target is not None:
                 s.assign(target, v, t, st, line)
